@@ -189,7 +189,11 @@ def commitEntries (ctx : Ctx κ) (strat : Strat) (skipDirs : Bool) :
       | .ok (r', cs, s') => .ok ((nm, n) :: r', cs, s')
     else if !ctx.nameOK nm then .error .invalid
     else
-      let c := (findChild old nm).getD { name := nm, sum := "", isDir := n.isDir }
+      -- the child recovered from the old manifest is reused only if its kind still agrees
+      let fresh : Child := { name := nm, sum := "", isDir := n.isDir }
+      let c := match findChild old nm with
+        | some k => if k.isDir == n.isDir then k else fresh
+        | none => fresh
       match commitNode ctx strat n c s with
       | .error e => .error e
       | .ok (n', c', s1) =>
